@@ -179,8 +179,9 @@ def gen_network(rng, nr, first_order, kgen, max_order=3):
     return net
 
 
-def indep_rhs(subs, rxns, y):
-    """mass-action right-hand side computed here from the case (floats), and the sum of |terms| per substance"""
+def indep_rhs(subs, rxns, y, feed=None):
+    """mass-action right-hand side computed here from the case (floats), and the sum of |terms| per substance;
+    feed = (F, [c_feed per substance]) adds the stirred-tank term F*(c_feed - c)"""
     names = [k for k, _ in subs]
     idx = {k: i for i, k in enumerate(names)}
     f = [0.0] * len(names)
@@ -194,6 +195,10 @@ def indep_rhs(subs, rxns, y):
             if n:
                 f[idx[k]] += n * rate
                 mag[idx[k]] += abs(n * rate)
+    if feed:
+        for i in range(len(names)):
+            f[i] += feed[0] * (feed[1][i] - y[i])
+            mag[i] += abs(feed[0] * feed[1][i]) + abs(feed[0] * y[i])
     return f, mag
 
 
@@ -397,6 +402,7 @@ class C06(Property):
 
     def __init__(self):
         self._cache = {}
+        self._last = None
         self.meas = {'acc': [], 'acc_rest': [], 'neg': [], 'over': [], 'drift': []}     # measured ratios (calibration, see notes/C06.md)
 
     # ---- generation -------------------------------------------------------------------------
@@ -477,9 +483,9 @@ class C06(Property):
             c0[0] = 1.0
         tout = log_times(rng, 0.01 / max(ks), rng.uniform(1, 5) / min(ks))        # up to the slowest time scale
         tol = rng.choice([1e-6, 1e-8, 1e-9, 1e-10])
-        return {'kind': 'linear', 'subs': subs, 'rxns': net.rxns, 'c0': c0, 'tout': tout, 'atol': tol * rng.choice([1, 1e-2]),
+        return self._rand_opts(rng, {'kind': 'linear', 'subs': subs, 'rxns': net.rxns, 'c0': c0, 'tout': tout, 'atol': tol * rng.choice([1, 1e-2]),
                 'rtol': tol, 'integrator': rng.choice([None, 'scipy']), 'units': rand_units(rng, len(subs)) if rng.random() < 0.4 else None,
-                'text': self._rand_text(rng), 'sysopt': rand_sysopt(rng)}
+                'text': self._rand_text(rng), 'sysopt': rand_sysopt(rng)}, [k for k, _ in subs])
 
     def _bimol_case(self, rng, tier):
         which = rng.choice(['irrev', 'irrev', 'rev', 'rev', 'dimer', 'dimer', 'equal', 'equal', 'equal_rev'])
@@ -497,9 +503,40 @@ class C06(Property):
             slow = kf * (major - minor) if minor < major else rate
             tout = log_times(rng, 0.003 / rate, 10 ** rng.uniform(1.5, 4) / slow)
         tol = rng.choice([1e-6, 1e-8, 1e-9, 1e-10])
-        return {'kind': 'bimol', 'which': which, 'kf': kf, 'kb': kb, 'major': major, 'minor': minor, 'prod': prod, 'swap': swap,
-                'tout': tout, 'atol': tol * rng.choice([1, 1e-2]), 'rtol': tol, 'integrator': rng.choice([None, 'scipy']),
-                'units': rand_units(rng, 3) if rng.random() < 0.4 else None, 'text': self._rand_text(rng), 'sysopt': rand_sysopt(rng)}
+        c = {'kind': 'bimol', 'which': which, 'kf': kf, 'kb': kb, 'major': major, 'minor': minor, 'prod': prod, 'swap': swap,
+             'tout': tout, 'atol': tol * rng.choice([1, 1e-2]), 'rtol': tol, 'integrator': rng.choice([None, 'scipy']),
+             'units': rand_units(rng, 3) if rng.random() < 0.4 else None, 'text': self._rand_text(rng), 'sysopt': rand_sysopt(rng)}
+        c = self._rand_opts(rng, c, ['A', 'P'] if which == 'dimer' else ['A', 'B', 'P'], allow_cstr=False)
+        if rng.random() < 0.25 and not (c['opts'] or {}).get('params') == 'unique':
+            # real species (Fe+3 + SCN- <-> FeSCN+2, 2 NO2 -> N2O4) read by the DEFAULT substance factory = the formula parser
+            c['text'] = {'seed': rng.randrange(10 ** 9), 'via': 'system', 'nocomp': False, 'formulas': True}
+        return c
+
+    def _rand_opts(self, rng, case, names, allow_cstr=True):
+        """adds case['opts'] (and switches off what it does not combine with): the other ways get_odesys is asked to build the system"""
+        r = rng.random()
+        case['opts'] = None
+        if r < 0.5:
+            return case
+        kind = rng.choice(['named', 'named', 'unique', 'cstr', 'cstr', 'partial', 'partial'] if allow_cstr else ['named', 'unique', 'partial'])
+        case['sysopt'] = None
+        if kind in ('named', 'unique'):
+            case['opts'] = {'params': kind, 'scan': [[1.0 if rng.random() < 0.3 else float('%.3g' % 10 ** rng.uniform(-1.5, 1.5))
+                                                      for _ in range(12)] for _ in range(rng.randint(0, 2))]}
+            if kind == 'unique':
+                case['units'] = None
+                case['text'] = {'seed': None, 'via': 'system', 'nocomp': False}
+        elif kind == 'cstr':
+            case['units'] = None
+            case['opts'] = {'cstr': {'fr': float('%.3g' % 10 ** rng.uniform(-2, 1)),
+                                     'fc': [0.0 if rng.random() < 0.4 else float('%.3g' % 10 ** rng.uniform(-2, 0.5)) for _ in names]}}
+        else:
+            case['units'] = None
+            pref = None if rng.random() < 0.5 or len(names) < 2 else rng.sample(names, rng.randint(1, min(2, len(names) - 1)))
+            case['opts'] = {'partial': {'preferred': pref}}
+        if case.get('text') and case['text'].get('nocomp') and kind in ('cstr', 'partial'):
+            case['text']['nocomp'] = False
+        return case
 
     def _rand_text(self, rng):
         """how the system is written and read: plain lines (None) or sampled spellings (repeated terms, explicit 1, mixed order) through
@@ -520,9 +557,9 @@ class C06(Property):
         kmax = max(float(_fr(r['param'])) for r in net.rxns)
         tout = log_times(rng, 0.01 / kmax, 100 / kmax)
         tol = rng.choice([1e-6, 1e-8, 1e-9])
-        return {'kind': 'traj', 'subs': subs, 'rxns': net.rxns, 'c0': c0, 'tout': tout, 'atol': tol, 'rtol': tol,
+        return self._rand_opts(rng, {'kind': 'traj', 'subs': subs, 'rxns': net.rxns, 'c0': c0, 'tout': tout, 'atol': tol, 'rtol': tol,
                 'integrator': rng.choice([None, 'scipy']), 'units': rand_units(rng, len(subs)) if rng.random() < 0.4 else None,
-                'text': self._rand_text(rng), 'sysopt': rand_sysopt(rng)}
+                'text': self._rand_text(rng), 'sysopt': rand_sysopt(rng)}, [k for k, _ in subs])
 
     def _history_case(self, rng, tier):
         """a parameter scan / refit on the SAME objects: build once, then per step re-assign rate constants (over decades), optionally
@@ -531,7 +568,7 @@ class C06(Property):
         base = None
         while base is None:
             base = self._linear_case(rng, tier, max_decades=4) if rng.random() < 0.7 else self._bimol_case(rng, tier)
-        base['units'] = base['text'] = base['sysopt'] = None
+        base['units'] = base['text'] = base['sysopt'] = base['opts'] = None
         if base['kind'] == 'bimol' and base['which'] == 'dimer':
             base['which'] = 'irrev'
         nr = len(base['rxns']) if base['kind'] == 'linear' else 2
@@ -618,7 +655,8 @@ class C06(Property):
 
     def _utag(self, case):
         un = case.get('units')
-        extra = (':ScaledSys' if case.get('sysopt') else '') + (':text-%s%s' % (case['text']['via'], '-nocomp' if case['text'].get('nocomp') else '')
+        op = case.get('opts') or {}
+        extra = (':ScaledSys' if case.get('sysopt') else '') + ''.join(':' + (k if k != 'params' else 'params-' + op[k]) for k in sorted(op) if op[k] and k != 'scan') + (':text-%s%s' % (case['text']['via'], '-nocomp' if case['text'].get('nocomp') else '')
                                                                 if case.get('text') else '')
         if not un:
             return extra
@@ -774,12 +812,12 @@ class C06(Property):
                 return self._oracle_history(case)
         return None
 
-    def _euler_claim(self, subs, rxns, y, h, cap, where=''):
+    def _euler_claim(self, subs, rxns, y, h, cap, where='', feed=None):
         """the advertised step `h` (already in the USER's time scale, cap = largest value the callback may return there) at the
         non-negative state `y` (user scale, substance order of `subs`): 0 <= h <= cap, one explicit Euler step keeps every
         concentration in [0, elemental bound], and h is the largest such step <= cap (f and the bounds recomputed here)"""
         ns = len(subs)
-        f, mag = indep_rhs(subs, rxns, y)
+        f, mag = indep_rhs(subs, rxns, y, feed)
         ub = indep_bounds(subs, y)
         if not (0 <= h <= cap * (1 + 1e-12)):
             return 'max_euler_step_cb: step %r (user time scale) outside [0, %r] at y=%r%s' % (h, cap, y, where)
@@ -873,7 +911,7 @@ class C06(Property):
         return None
 
     # ---- exploration: the delegated integrator ----------------------------------------------
-    def _integrate(self, case, subs, rxns, c0d, rsys=None):
+    def _integrate(self, case, subs, rxns, c0d, rsys=None, reuse=False):
         """text -> from_string -> get_odesys -> integrate; -> (names, tout [s], yout [molar], rsys, cb) or a failure string.
         With case['units'] the unit-aware pipeline is driven (get_odesys(unit_registry=SI_base_registry), rate constants, initial
         concentrations and output times carrying units — a unit per entry —, c0 as dict / list / quantity array) and the
@@ -900,19 +938,73 @@ class C06(Property):
                 keys = [k for k, _ in subs]
                 return ReactionSystem([Reaction.from_string(l, keys) for l in lines], OrderedDict((k, factory(k)) for k in keys))
             return ReactionSystem.from_string('\n'.join(lines), substance_factory=factory)
+        # builder options (case['opts']): rate constants as free parameters (include_params=False; 'named' = string keys in the text,
+        # 'unique' = MassAction([k], unique_keys=[name]) through the constructor), stirred tank (cstr=True: feed ratio and feed
+        # concentrations as parameters), PartiallySolvedSystem over extra['linear_dependencies'], default substance factory (formulas)
+        op = case.get('opts') or {}
+        pm, cs, part = op.get('params'), op.get('cstr'), op.get('partial')
+        gk = dict(sys_kwargs(so))
+        if pm:
+            gk['include_params'] = False
+        if cs:
+            gk['cstr'] = True
+        pvals = OrderedDict()
+        if pm:
+            pvals.update(('k%d' % j, float(_fr(r['param']))) for j, r in enumerate(rxns))
+        if cs:
+            pvals['feedratio'] = cs['fr']
+            pvals.update(('fc_' + k, v) for (k, _), v in zip(subs, cs['fc']))
+
+        def named(lines):
+            return [l.rsplit(';', 1)[0] + "; 'k%d'" % j for j, l in enumerate(lines)] if pm == 'named' else lines
+
+        def build(lines):
+            if pm == 'unique':
+                from chempy import Reaction
+                from chempy.kinetics.rates import MassAction
+                keys = [k for k, _ in subs]
+                return ReactionSystem([Reaction(OrderedDict(map(tuple, r['reac'])), OrderedDict(map(tuple, r['prod'])),
+                                                MassAction([float(_fr(r['param']))], unique_keys=['k%d' % j]),
+                                                inact_reac=OrderedDict(map(tuple, r['inact_reac'])),
+                                                inact_prod=OrderedDict(map(tuple, r['inact_prod'])))
+                                       for j, r in enumerate(rxns)], OrderedDict((k, factory(k)) for k in keys))
+            if tx.get('formulas'):            # real formulas: the default substance factory parses the compositions
+                return ReactionSystem.from_string('\n'.join(named(lines)))
+            return from_text(named(lines))
         if not un:
-            if rsys is None:
-                rsys = from_text([rxn_text(r, trng) for r in rxns])
-            odesys, extra = get_odesys(rsys, **sys_kwargs(so))
-            res = odesys.integrate([0.0] + list(case['tout']), c0d, **kw)
+            if reuse:
+                rsys, odesys, extra = self._last
+            else:
+                if rsys is None:
+                    rsys = build([rxn_text(r, trng) for r in rxns])
+                odesys, extra = get_odesys(rsys, **gk)
+                self._last = (rsys, odesys, extra)
+            isys = odesys
+            if part:
+                from pyodesys.symbolic import PartiallySolvedSystem
+                try:
+                    isys = PartiallySolvedSystem(odesys, extra['linear_dependencies'](part.get('preferred')))
+                except ValueError as e:
+                    if 'Failed to obtain analytic expression' in str(e) or 'Cannot remove all' in str(e):
+                        return 'refused: %s' % e
+                    raise
+            iargs = ([0.0] + list(case['tout']), c0d) + ((dict(pvals),) if pvals else ())
+            res = isys.integrate(*iargs, **kw)
             xout, yout = np.asarray(res.xout), np.asarray(res.yout)
             raw_cb = extra['max_euler_step_cb']
             # the callback returns the step in the solver's time t_int = tau*t (it is meant as `first_step`): user scale = h/tau
-            cb = None if raw_cb is None else (lambda y: float(raw_cb(0, list(y))) / tau)
+            cb = None if raw_cb is None else (lambda y: float(raw_cb(0, list(y), *((dict(pvals),) if pvals else ()))) / tau)
         else:
             from chempy.units import SI_base_registry, to_unitless, default_units as u
-            rsys = from_text([rxn_text_units(r, un['k_conc'], un['k_time'], trng) for r in rxns])
+            ulines = [rxn_text_units(r, un['k_conc'], un['k_time'], trng) for r in rxns]
+            rsys = from_text(named(ulines))
             kwo = {}
+            if pm:        # the constants are passed as unit-carrying parameters instead of being written into the text
+                kwo['include_params'] = False
+                for j, r in enumerate(rxns):
+                    order = sum(n for _, n in r['reac'])
+                    kv = float(_fr(r['param'])) * unit_factor(un['k_time']) * unit_factor(un['k_conc']) ** (order - 1)
+                    pvals['k%d' % j] = kv * unit_of(un['k_conc']) ** (1 - order) / unit_of(un['k_time'])
             if un.get('out_conc'):
                 kwo['output_conc_unit'] = unit_of(un['out_conc'])
             if un.get('out_time'):
@@ -930,14 +1022,18 @@ class C06(Property):
                 return rsys.as_per_substance_array(q, unit=unit_of(un['conc'][0]))
             tu = un['time']
             tq = np.array([0.0] + [t / unit_factor(tu) for t in case['tout']]) * unit_of(tu)
-            res = odesys.integrate(tq, pack(c0d), **kw)
+            res = odesys.integrate(tq, pack(c0d), *((dict(pvals),) if pvals else ()), **kw)
             xout = np.asarray(to_unitless(res.xout, u.second), dtype=float)
             yout = np.asarray(to_unitless(res.yout, u.molar), dtype=float)
             raw_cb = extra['max_euler_step_cb']
             # SI_base_registry: the internal time unit is the second, so the returned (unitless) step is in tau * seconds
-            cb = None if raw_cb is None else (lambda y: float(raw_cb(0 * unit_of(tu), pack(dict(zip(odesys.names, y))))) / tau)
+            cb = None if raw_cb is None else (lambda y: float(raw_cb(0 * unit_of(tu), pack(dict(zip(odesys.names, y))),
+                                                                     *((dict(pvals),) if pvals else ()))) / tau)
         if cb is not None:
             cb.cap = 1.0 / tau
+            cb.rxns = rxns
+            if cs:
+                cb.feed = (cs['fr'], {k: v for (k, _), v in zip(subs, cs['fc'])})
         if nocomp:
             if raw_cb is not None:
                 return 'substances without composition got a max_euler_step_cb'
@@ -971,7 +1067,7 @@ class C06(Property):
                     '(atol %g, rtol %g)' % (name, t, got, ref, err, tol, ACC_F, ACC_G, atol, rtol))
         return None
 
-    def _admissible(self, case, subs, names, yout, c0d):
+    def _admissible(self, case, subs, names, yout, c0d, open_system=False):
         """along the trajectory, per component: c_i >= -tol_i, c_i <= ub_i + tol_i with tol_i = BOUND_F*(atol + rtol*ub_i);
         element totals and charge kept"""
         order = {k: i for i, k in enumerate(names)}
@@ -984,6 +1080,8 @@ class C06(Property):
             for i, v in enumerate(row):
                 if not math.isfinite(v):
                     return 'non-finite concentration of %s' % names[i]
+                if open_system:                       # stirred tank: material flows in and out, no elemental bound, no conserved totals
+                    ub[i] = math.inf
                 unit = atol + rtol * (ub[i] if math.isfinite(ub[i]) else cmax[i])
                 self.meas['neg'].append(max(0.0, -v) / unit)
                 self.meas['over'].append(max(0.0, v - ub[i]) / unit)
@@ -991,7 +1089,7 @@ class C06(Property):
                     return 'concentration of %s becomes negative: %r (tolerance %g = %g*(atol + rtol*bound))' % (names[i], v, BOUND_F * unit, BOUND_F)
                 if v > ub[i] + BOUND_F * unit:
                     return 'concentration of %s = %r exceeds its elemental upper bound %r (tolerance %g)' % (names[i], v, ub[i], BOUND_F * unit)
-            keys = sorted({e for _, comp in subs_o for e, _ in comp})
+            keys = [] if open_system else sorted({e for _, comp in subs_o for e, _ in comp})
             for e in keys:
                 a = [dict(map(tuple, comp)).get(e, 0) for _, comp in subs_o]
                 t0 = sum(aj * c for aj, c in zip(a, c0))
@@ -1018,23 +1116,39 @@ class C06(Property):
     def _oracle_linear(self, case):
         subs, rxns = case['subs'], case['rxns']
         c0d = {k: v for (k, _), v in zip(subs, case['c0'])}
-        r = self._integrate(case, subs, rxns, c0d)
-        if isinstance(r, str):
-            return r
-        names, xout, yout, rsys, cb = r
-        M = first_order_M(names, rxns)
-        c0 = [c0d[k] for k in names]
-        for t, row in zip(xout[1:], yout[1:]):
-            ref = self._expm_ref(M, c0, float(t))
-            refmax = max(abs(float(v)) for v in ref)
-            for i, k in enumerate(names):
-                f = self._accurate(case, k, t, float(row[i]), float(ref[i]), refmax)
-                if f:
-                    return f + ' [exp(M t) c0]'
-        f = self._admissible(case, subs, names, yout, c0d)
-        if f:
-            return f
-        return self._euler_along(subs, rxns, names, yout, cb)
+        op = case.get('opts') or {}
+        runs = [(rxns, False)]
+        if op.get('params') and op.get('scan'):           # parameter scan the intended way: same odesys, other parameter values
+            runs += [([dict(r, param=rat_json(F(float(_fr(r['param'])) * sc))) for r, sc in zip(rxns, scl)], True) for scl in op['scan']]
+        for cur, reuse in runs:
+            r = self._integrate(case, subs, cur, c0d, reuse=reuse)
+            where = ' [exp(M t) c0%s]' % (', scanned constants %r through the parameters of the same odesys' %
+                                            [float(_fr(x['param'])) for x in cur] if reuse else '')
+            if isinstance(r, str):
+                if r.startswith('refused: '):
+                    return None                             # the analytic solver refuses this `preferred` list (C05's subject)
+                return r + where
+            names, xout, yout, rsys, cb = r
+            M = first_order_M(names, cur)
+            c0 = [c0d[k] for k in names]
+            cs = op.get('cstr')
+            if cs:                                          # c' = (M - F I) c + F c_feed: exponential of the augmented matrix
+                fc = dict(zip([k for k, _ in subs], cs['fc']))
+                n = len(names)
+                M = [[M[i][j] - (F(cs['fr']) if i == j else 0) for j in range(n)] + [F(cs['fr']) * F(fc[names[i]])] for i in range(n)]
+                M.append([F(0)] * (n + 1))
+                c0 = c0 + [1.0]
+            for t, row in zip(xout[1:], yout[1:]):
+                ref = self._expm_ref(M, c0, float(t))[:len(names)]
+                refmax = max(abs(float(v)) for v in ref)
+                for i, k in enumerate(names):
+                    f = self._accurate(case, k, t, float(row[i]), float(ref[i]), refmax)
+                    if f:
+                        return f + where
+            f = self._admissible(case, subs, names, yout, c0d, open_system=bool(cs)) or self._euler_along(subs, cur, names, yout, cb)
+            if f:
+                return f + where
+        return None
 
     def _euler_along(self, subs, rxns, names, yout, cb, cap=1.0):
         """the Euler-step claim (safe AND maximal) at states taken from the trajectory, through the same entry point (unit-carrying,
@@ -1046,9 +1160,13 @@ class C06(Property):
         cap = getattr(cb, 'cap', cap)
         order = {k: i for i, k in enumerate(names)}
         subs_o = sorted(subs, key=lambda s: order[s[0]])
+        feed = getattr(cb, 'feed', None)
+        if feed:
+            feed = (feed[0], [feed[1][k] for k in names])
+        rxns = getattr(cb, 'rxns', rxns)                  # the constants the callback was given (parameter scans)
         for row in yout:
             y = [max(float(v), 0.0) for v in row]
-            f = self._euler_claim(subs_o, rxns, y, cb(y), cap, ' [trajectory state]')
+            f = self._euler_claim(subs_o, rxns, y, cb(y), cap, ' [trajectory state]', feed)
             if f:
                 return f
         return None
@@ -1097,10 +1215,24 @@ class C06(Property):
         text = ' / '.join(rxn_text(r) for r in rxns)
         if case.get('units') and which == 'dimer':
             case = dict(case, units=dict(case['units'], conc=case['units']['conc'][:2]))
+        inv = {}
+        if (case.get('text') or {}).get('formulas'):      # real species read by the DEFAULT substance factory (formula parser)
+            ren, fcomp = (({'A': 'NO2', 'P': 'N2O4'}, {'NO2': [[7, 1], [8, 2]], 'N2O4': [[7, 2], [8, 4]]}) if which == 'dimer' else
+                          ({A: 'Fe+3', B: 'SCN-', 'P': 'FeSCN+2'},
+                           {'Fe+3': [[26, 1], [0, 3]], 'SCN-': [[16, 1], [6, 1], [7, 1], [0, -1]],
+                            'FeSCN+2': [[26, 1], [16, 1], [6, 1], [7, 1], [0, 2]]}))
+            inv = {v: k for k, v in ren.items()}
+            subs = [[ren[k], fcomp[ren[k]]] for k, _ in subs]
+            rxns = [dict(r, **{part: [[ren[k], n] for k, n in r[part]] for part in ('reac', 'prod')}) for r in rxns]
+            c0d = OrderedDict((ren[k], v) for k, v in c0d.items())
+            pp = ((case.get('opts') or {}).get('partial') or {}).get('preferred')
+            if pp:
+                case = dict(case, opts={'partial': {'preferred': [ren[k] for k in pp if k in ren]}})
         r = self._integrate(case, subs, rxns, c0d)
         if isinstance(r, str):
-            return r
-        names, xout, yout, rsys, cb = r
+            return None if r.startswith('refused: ') else r
+        rnames, xout, yout, rsys, cb = r
+        names = [inv.get(k, k) for k in rnames]
         # the library's closed forms are compared where they are defined and well-conditioned (binary_irrev is 0/0 for
         # [A]0 = [B]0 and cancels for [B]0/[A]0 -> 1); the accepted extra error is their own rounding error
         lib_ok = case['minor'] <= 0.9 * case['major']
@@ -1125,10 +1257,10 @@ class C06(Property):
                 cf = ('dimerization_irrev(kf/2)', A, integrated.dimerization_irrev(float(t), case['kf'] / 2, case['major']))
             if cf is not None and not abs(got[cf[1]] - float(cf[2])) <= tolP:
                 return 'integrated %s(t=%g) = %r, chempy.kinetics.integrated.%s gives %r [%s]' % (cf[1], t, got[cf[1]], cf[0], float(cf[2]), text)
-        f = self._closed_form_sweep(case, A, B) or self._admissible(case, subs, names, yout, c0d)
+        f = self._closed_form_sweep(case, A, B) or self._admissible(case, subs, rnames, yout, c0d)
         if f:
             return f
-        return self._euler_along(subs, rxns, names, yout, cb)
+        return self._euler_along(subs, rxns, rnames, yout, cb)
 
     def _closed_form_sweep(self, case, A, B):
         """chempy's closed forms against the 40-digit reference (no integration involved) from the early to the FAST / LATE regime:
@@ -1247,9 +1379,9 @@ class C06(Property):
         c0d = {k: v for (k, _), v in zip(subs, case['c0'])}
         r = self._integrate(case, subs, rxns, c0d)
         if isinstance(r, str):
-            return r
+            return None if r.startswith('refused: ') else r
         names, xout, yout, rsys, cb = r
-        f = self._admissible(case, subs, names, yout, c0d)
+        f = self._admissible(case, subs, names, yout, c0d, open_system=bool((case.get('opts') or {}).get('cstr')))
         if f:
             return f
         return self._euler_along(subs, rxns, names, yout, cb)
